@@ -71,6 +71,7 @@ let parse_script f =
       | "feat" :: kv ->
           let get k = List.exists (fun w -> w = k ^ "=1") kv in
           feats := { f_dd = get "dd"; f_metrics = get "metrics"; f_testutils = get "testutils"; f_tracing = get "tracing" }
+      | "mode" :: _ -> ()
       | _ -> acts := parse_action l :: !acts) ls;
   { feats = !feats; actions = List.rev !acts }
 
